@@ -425,6 +425,12 @@ class World:
                 cinco.reset_value(cfg, ".".join(list(seq(ev["p"])) + [ev["k"]]))
             elif op == "CopyTree":
                 cfg.load_tree(self.cfgs[ev["src"]].to_tree())
+            elif op == "RoundTrip":
+                data = cfg.dumps(ev["fmt"])
+                new = self.schema()
+                new.loads(data, ev["fmt"])
+                self.keep.append(self.cfgs[n])
+                self.cfgs[n] = new
             elif op == "Query":
                 res["asdict"] = asdict_abs(cinco, self.desc, cinco.asdict(cfg, virtual=True), self.root)
                 res["computed"] = sorted(computed_values(cinco, self.desc, cfg), key=lambda x: x[0])
